@@ -32,6 +32,7 @@ def norm_fact(pred, a, b):
 
 
 _CALL_NAMES_SEEN = set()
+_FIELDS_SEEN = set()
 
 
 class Facts:
@@ -514,6 +515,11 @@ class Matcher:
                 return None
             return self.match(pat[1], d.ops[0], env)
         if kind == "field":
+            if pat[1] is not None and pat[2] is not None and (pat[1], pat[2]) not in _FIELDS_SEEN:
+                _FIELDS_SEEN.add((pat[1], pat[2]))
+                if (pat[1].lstrip("_"), pat[2]) in getattr(self.mod, "missing_fields", ()):
+                    from . import build
+                    build.REQUESTED_MISSING.add("field %s.%s" % (pat[1].lstrip("_"), pat[2]))
             steps = None
             base = None
             if d is not None and not d.is_param and d.op == "getelementptr":
